@@ -1388,8 +1388,22 @@ class Sections:
         case = ["e2ec", i]
         r = self.rng("e2ec", i)
         del env.conns[:]
-        ctx = await aiocoap.Context.create_client_context(transports=["tcpclient"], loggername="coap")
+        del env.servers[:]
+        # the requests are pending either on a client-role connection (normal) or on a connection
+        # the context accepted as a server (role reversal: request addressed to the remote object)
+        role = "client" if r.random() < 0.7 else "server"
+        if role == "client":
+            ctx = await aiocoap.Context.create_client_context(transports=["tcpclient"], loggername="coap")
+        else:
+            import aiocoap.resource as resource
+
+            ctx = await aiocoap.Context.create_server_context(resource.Site(), transports=["tcpserver"], loggername="coap-server")
         try:
+            if role == "server":
+                if len(env.servers) != 1:
+                    rep.inconc("e2e: expected one fake listening server, got %d" % len(env.servers))
+                    return
+                env.conns.append(env.servers[0].accept())
             nreq = r.choice([1, 1, 2, 3])
             sent = []
             futs = []
@@ -1397,7 +1411,11 @@ class Sections:
                 segs = [r.choice(["a", "sensor", "x" * 13, "ä"]) for _ in range(r.randrange(0, 3))]
                 put = r.random() < 0.4
                 payload = r.randbytes(r.choice([1, 12, 13, 268, 269, 700])) if put else b""
-                m = aiocoap.Message(code=aiocoap.PUT if put else aiocoap.GET, uri="coap+tcp://peer.example/" + "/".join(segs), payload=payload)
+                if role == "client":
+                    m = aiocoap.Message(code=aiocoap.PUT if put else aiocoap.GET, uri="coap+tcp://peer.example/" + "/".join(segs), payload=payload)
+                else:
+                    m = aiocoap.Message(code=aiocoap.PUT if put else aiocoap.GET, uri_path=segs, payload=payload)
+                    m.remote = env.conns[0].proto
                 sent.append((3 if put else 1, segs, payload))
                 futs.append(asyncio.ensure_future(ctx.request(m).response))
             await asyncio.sleep(0.001)
@@ -1416,7 +1434,7 @@ class Sections:
             okb = (not rest) and frames and frames[0].code == rt.CSM and len(reqs) == nreq and len(frames) == nreq + 1
             if okb:
                 for f, (code, segs, payload) in zip(reqs, sent):
-                    want_opts = [(3, b"peer.example")] + [(11, s.encode("utf8")) for s in segs]
+                    want_opts = ([(3, b"peer.example")] if role == "client" else []) + [(11, s.encode("utf8")) for s in segs]
                     if f.code != code or f.payload != payload or list(f.options) != want_opts or len(f.token) > 8:
                         okb = False
                 if len({f.token for f in reqs}) != len(reqs):
@@ -1479,7 +1497,7 @@ class Sections:
                     answered = {} if el else answered
 
             def wit(**kw):
-                w = {"requests": repr(sent)[:300], "peer_items": [it.brief() for it in items], "chunking": ccl, "chunk_sizes": [len(c) for c in chunks][:40], "csm_first": csm_first, "answered": sorted(answered)}
+                w = {"local_role": role, "requests": repr(sent)[:300], "peer_items": [it.brief() for it in items], "chunking": ccl, "chunk_sizes": [len(c) for c in chunks][:40], "csm_first": csm_first, "answered": sorted(answered)}
                 w.update(kw)
                 return w
 
@@ -1505,7 +1523,7 @@ class Sections:
                     outcome = "violation"
                 else:
                     rep.seen("pending_failure_types", type(f.exception()).__name__)
-            rep.case(("e2ec", nreq, csm_first, tuple(item_sig(it) for it in items), ccl, outcome), nontrivial=True)
+            rep.case(("e2ec", role, nreq, csm_first, tuple(item_sig(it) for it in items), ccl, outcome), nontrivial=True)
             if i < 2:
                 rep.sample({"section": "e2e-client", "requests": repr(sent)[:200], "peer_items": [it.brief() for it in items], "chunking": ccl, "failures": [type(f.exception()).__name__ if f.done() and not f.cancelled() and f.exception() else "result" for f in futs]})
         finally:
